@@ -57,15 +57,16 @@ func TestC12(t *testing.T) {
 			return true
 		}
 		// 1. tokens of every type, null and its neighbours, with whitespace prefixes and next bytes
-		if e.enumStage("tokens", "pool of tokens of every type (numbers on every path, integers at type bounds, strings, literals, null neighbours) x 8 prefixes x 12 suffixes", true) {
+		if e.enumStage("tokens", "pool of tokens of every type (numbers on every path, integers at type bounds, strings, literals, null neighbours) x 8 prefixes x 14 suffixes (two of them over 64 bytes long)", true) {
 			var toks []string
 			toks = append(toks, gen.Nums...)
 			toks = append(toks, "null", "nul", "nulL", "nullx", "n", "Null", "NULL", "nu ll", "true", "false", "tru", "fals", "truex",
 				`""`, `"a"`, `"a\nb"`, `"😀"`, `"\ud800"`, `"é"`, `"\xff"`, `"unterminated`, `"bad\escape"`, `"ctl`+"\x01"+`"`, `"null"`, `"1"`,
 				"[]", "{}", "[null]", `{"a":null}`, "-", "+1", "1.", "1e", ".5", "-null", "", " ", "x", ",", ":", "]", "}")
 			pres := []string{"", " ", "\t\r\n", "\x0c", " \x00", "        ", "                 ", "\n\n\n\n\n\n\n\n\n\n\n\n\n\n\n\n\n\n\n\n\n\n\n\n\n"}
-			sufs := []string{"", " ", ",", "]", "}", "x", "0", ".", "e", "\"", "null", "\x00"}
-			buf := make([]byte, 0, 128)
+			sufs := []string{"", " ", ",", "]", "}", "x", "0", ".", "e", "\"", "null", "\x00",
+				`, "next": [1, 2, 3], "padding": "xxxxxxxxxxxxxxxxxxxxxxxxxxxxxxxxxxxxxxxxxxxxxxxxxxxxxxxxxxxxxxxxxxxxxxxxxxxxxxxxxxxxxxxxx"}`, ".5e3,                                                                                "}
+			buf := make([]byte, 0, 256)
 		tk:
 			for ti, tok := range toks {
 				if !e.cfg.Mine(ti) {
